@@ -341,11 +341,24 @@ def run(pid, tier):
     chk.assumptions += ["a guarded crash point terminates the process with _exit(137): no destructors, no flushing, like SIGKILL",
                         "runs are identified by their unique command name (cmd<k>) and by NONCE lines the helpers print",
                         "runtime_secs compared after rounding to 1e-4; timestamp ignored"]
+    # ---- the composed specification (Monorail.tla) stepped through real processes, state compared after every action
+    import session
+    session.stage(chk, bins, pid, 20 if tier == "quick" else 300, 80)
+    chk.assumptions.append("session replay: a mutating invocation is held at hook points by marker files (guarded build); the steps "
+                           "between two hold points are taken as one action of Monorail.tla (CpRead+CpTruncate composed)")
     return chk.finish()
 
 
 def replay(pid, path):
     obj = json.load(open(path))
+    if isinstance(obj.get("replay"), dict) and obj["replay"].get("ev") == "session":
+        import session
+        rc = session.replay_one(pid, obj["replay"])
+        if rc:
+            print("VIOLATION property=%s replay=%s" % (pid, path))
+        else:
+            print("REPLAY: the recorded session behaviour is reproduced by the real system without a mismatch")
+        return rc
     t = [{k: v for k, v in e.items() if k not in ("stderr", "note", "point")} for e in obj["replay"]["trace"]]
     fails, _, _ = vlib.judge_traces("StoreJudge", [t], shards=1)
     bad = [f for f in fails if f[3].startswith(TAGS[pid])]
